@@ -89,7 +89,12 @@ def replay(cls, trace):
                 if inner is None:
                     raise RuntimeError('rule %s is not traced' % name)
                 m.trace.append([name, kwargs])
-                inner(m, **kwargs)
+                try:
+                    inner(m, **kwargs)
+                except IndexError as e:
+                    if 'empty pool' in str(e):
+                        continue    # a step whose precondition (non-empty pool) does not hold is a no-op
+                    raise
                 m.check_invariants_plain()
         return m.info()
     finally:
